@@ -18,6 +18,7 @@ X86SSE2 = 'all(any(target_arch = "x86", target_arch = "x86_64"), target_feature 
 OVERLAYS = [
     ("src/lib.rs", "verif_lib", "vlib.rs", None, "crate"),
     ("src/lib.rs", "verif_glue", "@glue", None, "crate"),
+    ("src/lib.rs", "verif_native", "limbs_native.rs", None, "crate"),
     ("src/constant_time.rs", "verif_ct", "ct.rs", None, "crate::constant_time"),
     # the portable ChaCha engine is not compiled on x86-64: mount the unmodified file a second time (C03/C16 hook)
     ("src/chacha/mod.rs", "reference_verif", "@rel:reference.rs", X86SSE2, "crate::chacha"),
